@@ -1,5 +1,5 @@
 #!/usr/bin/env python3
-"""tools/try_mutant.py <prop> <worktree> <N> [<extra props...>]
+"""[SEED_ID=<id>] tools/try_mutant.py <prop> <worktree> <N> [<extra props...>]
 Confirms a seeded change (worktree/_demo/mutN.diff + demoN.py + noteN.txt) myself, runs the checks against it,
 and files it under seeded/<prop>-<N>/.  /repo is restored afterwards in every case."""
 import json
@@ -60,7 +60,8 @@ def main():
         if st.strip():
             print("WARNING /repo not clean:", st)
     # 3. file it
-    d = os.path.join(VERIF, "seeded", f"{prop}-{n}")
+    fid = os.environ.get("SEED_ID", n)   # round 2 files mut1/mut2 as <prop>-3/<prop>-4
+    d = os.path.join(VERIF, "seeded", f"{prop}-{fid}")
     os.makedirs(d, exist_ok=True)
     shutil.copy(diff, os.path.join(d, "patch.diff"))
     shutil.copy(demo, os.path.join(d, "demo.py"))
@@ -70,7 +71,7 @@ def main():
             "checks": results, "caught_by_own_property_check": caught}
     with open(os.path.join(d, "meta.json"), "w") as f:
         json.dump(meta, f, indent=1)
-    print(f"   filed seeded/{prop}-{n}  caught={caught}")
+    print(f"   filed seeded/{prop}-{fid}  caught={caught}")
     return 0
 
 
